@@ -3,6 +3,7 @@ C10 — Multipart reassembly delivers each message once, complete and unmixed.
 -/
 import Smpp.Properties.SrcCombine
 import Smpp.Proofs.CombinerProofs
+import Smpp.Proofs.CombinerOnce
 import Smpp.Generated.PduFacts
 
 namespace Smpp.Properties.C10
@@ -145,10 +146,31 @@ theorem C10_once (r : Registry) (p : Seg) (h : ConcatHeader)
   · simp only [hd, Bool.false_eq_true, ↓reduceIte]
     exact ⟨_, _, rfl, fun hf => absurd (hiff.mpr hf) hd, fun _ => regFind_set _ _ _⟩
 
+/-- **Never more often than it arrived.**  For ANY history and any PDU x: the number of times x occurs in
+the deliveries (all of them, flattened) is at most the number of times x occurs in the history. -/
+theorem C10_at_most_once (history : List Seg) (r : Registry) (ds : List (List Seg))
+    (h : run [] history = .ok (r, ds)) (x : Seg) : ds.flatten.count x ≤ history.count x := by
+  have := run_count x history [] r ds h
+  simp only [stored, List.flatMap_nil, List.count_nil] at this
+  omega
+
+/-- **Once.**  When the PDUs of the history are pairwise distinct (each arrival is its own PDU: `tag` is its
+position), no PDU is handed to the callback twice — neither within one delivery nor in two. -/
+theorem C10_no_redelivery (history : List Seg) (r : Registry) (ds : List (List Seg))
+    (h : run [] history = .ok (r, ds)) (hn : history.Nodup) : ds.flatten.Nodup := by
+  rw [List.nodup_iff_count]
+  intro x
+  have h1 := C10_at_most_once history r ds h x
+  have h2 := List.nodup_iff_count.mp hn x
+  omega
+
 /-- a segment that re-arrives after its message was delivered starts a fresh message: with N > 1 it is
 stored, not delivered (non-vacuity of `C10_once` on a concrete history: 1,2 delivered; 2 again: nothing) -/
 example : (match run [] [seg a1 d3 1 0, seg a1 d3 2 1, seg a1 d3 2 2] with
     | .ok (r, ds) => (ds.map (·.map (·.tag)), r.length)
     | .panic _ => ([], 0)) = ([[0, 1]], 1) := by decide +kernel
+
+/-- the hypothesis of `C10_no_redelivery` is met by the history above (distinct tags), which does make deliveries -/
+example : [seg a1 d3 1 0, seg a1 d3 2 1, seg a1 d3 2 2].Nodup := by decide +kernel
 
 end Smpp.Properties.C10
